@@ -76,9 +76,14 @@ CHECKS = {
              "every normal-form block diagram from its token stream). Every text the real learner emits for the "
              "C01 inputs, plus definitions with several start events and loops ending in forks, must parse, and the "
              "event names of the parsed diagram must be exactly the input's event types with no placeholder "
-             "(|||START|||, |||END|||, DUMMY_BREAK, LOOP_n). The writer is not modelled in Lean, but it is run on its own: "
+             "(|||START|||, |||END|||, DUMMY_BREAK, LOOP_n). The writer is modelled (O2P.Writer: topological head, "
+             "dfs_successors, reversed ordering with PATH nodes, indentation table translated from the source), compared "
+             "character by character with write_puml_string on every graph the learner builds, and writer_vocabulary is "
+             "proved of it for every graph: every emitted line is an operator string of the table, detach, break, repeat, "
+             "repeat while, or :name; of an event node. The writer is also run on its own: "
              "write_puml_string on PUML graphs built from the block structures of the generated definitions must print "
-             "texts from which the Lean parser recovers those block structures; C05_full is a stated Prop.",
+             "texts from which the Lean parser recovers those block structures. The walk that builds the graph is not "
+             "modelled; C05_full is a stated Prop.",
         ref="DESIGN.md §5 C05",
         note="Trusted: the Lean parser as the definition of the dialect (written from OPERATOR_NODE_PUML_MAP and the "
              "corpus), Lean kernel for its theorems. Recorded findings: KF-B, KF-C, one corpus file.",
@@ -99,7 +104,11 @@ CHECKS = {
              "answer is a model outcome and satisfies the clauses; process_missing_and_gates builds the model's gate). "
              "The OR inference (check_is_or_operator / infer_or_gate_from_node) is modelled and its decision logic proved "
              "sound over abstract children (or_inference_sound, or_test_spec) and, with a semantics of the miner's trees, for the "
-             "executable model on arbitrary subtrees (or_inference_tree_sound); the domain also runs under unusual event "
+             "executable model on arbitrary subtrees (or_inference_tree_sound) and over the whole recursion "
+             "(or_inference_all_sound, under decidable hypotheses that the check evaluates on every real raw tree); the "
+             "first sentence of the property is also run on observed families that are not the full family of a tree "
+             "(seeded random families and parts of the domain's families: three genuine defects found there were "
+             "repaired); the domain also runs under unusual event "
              "names (prefixes / concatenations of one another, blanks, punctuation); filter_defunct_or_gates and "
              "process_missing_and_gates are modelled too, and on the REAL raw miner trees of the whole domain the real "
              "post-processing returns an outcome of the Lean model, every outcome of which (every choice of max) Lean "
